@@ -1017,6 +1017,9 @@ func (w *c13world) oracles() []c13verdict {
 	if len(w.split) > 0 {
 		hist += "; note: " + strings.Join(w.split, "; ")
 	}
+	if w.mid != nil && len(w.mid.placed) > 0 {
+		hist += "; note: " + strings.Join(w.mid.placed, "; ")
+	}
 	emIndex := map[uint32]int{}
 	for i, e := range w.emits {
 		emIndex[e.p] = i
@@ -1445,9 +1448,13 @@ func c13sequential(rng *hx.Rng, nops, nconn, nsig, maxsubs int) *c13world {
 		switch k := rng.Intn(10); {
 		case k < 3 && len(w.subs) < maxsubs:
 			h++
-			w.startSub(rng.Intn(nconn), c13sigs[rng.Intn(nsig)], h)
+			c := rng.Intn(nconn)
+			w.startSub(c, c13sigs[rng.Intn(nsig)], h)
+			c13midMaybe(rng, w, c, nsig, &payload)
 		case k < 5 && len(live) > 0:
-			w.startCancel(live[rng.Intn(len(live))])
+			s := live[rng.Intn(len(live))]
+			w.startCancel(s)
+			c13midMaybe(rng, w, s.conn, nsig, &payload)
 		default:
 			payload++
 			w.emitSnap(c13sigs[rng.Intn(nsig)], c13sized(rng, payload))
@@ -1467,6 +1474,7 @@ func c13interleaved(rng *hx.Rng, nsteps int) *c13world {
 	payload := uint32(500)
 	h := 0
 	nc := len(w.clients)
+	mids := 2 // requests of this schedule that may get an emission inside (c13mid.go)
 	for i := 0; i < nsteps && len(w.bad) == 0; i++ {
 		type act func()
 		var acts []act
@@ -1498,6 +1506,14 @@ func c13interleaved(rng *hx.Rng, nsteps int) *c13world {
 				if len(cl.c.Up.Parked()) > 0 {
 					c := c
 					add(3, func() { w.mbox(c) })
+					if mids > 0 && w.midOK(c) {
+						add(2, func() {
+							mids--
+							payload++
+							sig, p := c13sigs[rng.Intn(2)], c13sized(rng, payload)
+							w.mboxMid(c, func() { w.emitWhole(sig, p) })
+						})
+					}
 				}
 			}
 		}
@@ -1530,7 +1546,15 @@ func runC13(res *hx.Result, rng *hx.Rng, tier string, outdir string) {
 	// the client side with readers that the harness controls (c13fwd.go).  First: it reads the state of its
 	// forwarders off runtime.Stack dumps, whose cost grows with the goroutines the other families leave behind
 	// (40 minutes instead of 3 in the thorough tier when it ran last).  Its own random stream.
+	t0 := time.Now()
+	lap := func(what string) { // QV_C13_TIMING=1: where the time goes
+		if os.Getenv("QV_C13_TIMING") != "" {
+			fmt.Fprintf(os.Stderr, "C13 %-28s %6.2fs\n", what, time.Since(t0).Seconds())
+		}
+		t0 = time.Now()
+	}
 	c13runFwd(res, hx.NewRng(res.Seed*0x9e3779b97f4a7c15+13), tier, outdir)
+	lap("client-side family")
 	// defect switches: replay of the C13_refuted_* witnesses on the implementation
 	w17, on17 := c13sched17()
 	w16, on16 := c13sched16()
@@ -1577,6 +1601,7 @@ func runC13(res *hx.Result, rng *hx.Rng, tier string, outdir string) {
 		w, name := f()
 		finish(w, "script-"+name)
 	}
+	lap("probes, scripts")
 	// an emission inside the mailbox goroutine's processing of a request (c13mid.go)
 	for i, f := range c13midScripts() {
 		for m := 0; m <= 3; m++ {
@@ -1594,6 +1619,7 @@ func runC13(res *hx.Result, rng *hx.Rng, tier string, outdir string) {
 			finish(w, "script-"+name)
 		}
 	}
+	lap("emission-inside scripts")
 	// the same scripts on an object with statistics and/or tracing enabled
 	for i, f := range c13scripts() {
 		for m := 1; m <= 3; m++ {
@@ -1606,6 +1632,7 @@ func runC13(res *hx.Result, rng *hx.Rng, tier string, outdir string) {
 			finish(w, "script-"+name)
 		}
 	}
+	lap("scripts in other modes")
 	for i := 0; i < nSeq; i++ {
 		c13mode = (i / 2) % 4
 		if i%2 == 0 {
@@ -1614,11 +1641,13 @@ func runC13(res *hx.Result, rng *hx.Rng, tier string, outdir string) {
 			finish(c13sequential(rng, 14+rng.Intn(14), 2, 1+rng.Intn(2), 14), "sequential-focused")
 		}
 	}
+	lap("sequential")
 	for i := 0; i < nInter; i++ {
 		c13mode = i % 4
 		finish(c13interleaved(rng, 15+rng.Intn(30)), "interleaved")
 	}
 	c13mode = 0
+	lap("interleaved")
 	if tier == "thorough" {
 		// every sequence of at most 4 operations over 2 connections x 2 signals (one through the generated proxy)
 		res.Exhaustive = true
@@ -1666,5 +1695,7 @@ func runC13(res *hx.Result, rng *hx.Rng, tier string, outdir string) {
 	}
 	cf.Flush()
 	// registrations with caller-chosen ids (c13raw.go)
+	lap("exhaustive, flush")
 	c13runRaw(res, rng, tier, outdir, cfg)
+	lap("raw family")
 }
